@@ -332,6 +332,8 @@ func init() {
 		{Kind: "nvstmts", Name: "NVar.Assemble", Arg: "Header.Size|DataOffset|Header.Next|Header.Signature"},
 		// the store loop: offsets
 		{Kind: "nvstmts", Name: "NewNVarStore", Arg: "FreeSpaceOffset|GUIDStoreOffset|Length"},
+		// wp-nvfix: when newNVar looks for a nested store (fixes/C10-nested-ext-header.diff: never behind an extended header)
+		{Kind: "nvstmts", Name: "newNVar", Arg: "parseContent|NVarEntryExtHeader"},
 		{Kind: "nvstmts", Name: "NVarStore.GetGUIDStoreBuf", Arg: "len("},
 	}})
 	specs = append(specs, Spec{Area: "NvramVisitorsLogic", Pkg: "pkg/visitors", Items: []Item{
